@@ -102,8 +102,8 @@ def hyd_net(draw, max_n=10, fluids=None, allow_oos=True, allow_pi=True, allow_ct
             if allow_ctrl:
                 choices += ["press_control"]
                 if gas:
-                    choices += ["compressor"]
-                elif allow_pumps:
+                    choices += ["compressor", "compressor"]
+                if allow_pumps and (not gas or draw(st.integers(0, 3)) == 0):
                     choices += ["pump"]
         else:
             choices = ["pipe"] * 6 + ["valve"] * 2
